@@ -1328,6 +1328,28 @@ func shrinkingSliceLoop(f *ssa.Function, body map[*ssa.BasicBlock]bool) (string,
 			if _, isSlice := phi.Type().Underlying().(*types.Slice); !isSlice {
 				continue
 			}
+			// lenOf: v is len(phi), or a phi of the same header that equals len(phi) edge by edge
+			lenOf := func(v ssa.Value) bool {
+				if call, ok := v.(*ssa.Call); ok {
+					bi, isB := call.Call.Value.(*ssa.Builtin)
+					return isB && bi.Name() == "len" && call.Call.Args[0] == ssa.Value(phi)
+				}
+				np, ok := v.(*ssa.Phi)
+				if !ok || np.Block() != phi.Block() || len(np.Edges) != len(phi.Edges) {
+					return false
+				}
+				for i, e := range np.Edges {
+					call, ok := e.(*ssa.Call)
+					if !ok {
+						return false
+					}
+					bi, isB := call.Call.Value.(*ssa.Builtin)
+					if !isB || bi.Name() != "len" || call.Call.Args[0] != phi.Edges[i] {
+						return false
+					}
+				}
+				return true
+			}
 			shrinks := false
 			for _, e := range phi.Edges {
 				sl, ok := e.(*ssa.Slice)
@@ -1340,7 +1362,7 @@ func shrinkingSliceLoop(f *ssa.Function, body map[*ssa.BasicBlock]bool) (string,
 					}
 				}
 				if sl.High != nil && sl.Low == nil {
-					if bo, ok := sl.High.(*ssa.BinOp); ok && bo.Op == token.SUB {
+					if bo, ok := sl.High.(*ssa.BinOp); ok && bo.Op == token.SUB && lenOf(bo.X) {
 						if k, ok := core.ConstInt(bo.Y); ok && k >= 1 {
 							shrinks = true
 						}
@@ -1353,11 +1375,9 @@ func shrinkingSliceLoop(f *ssa.Function, body map[*ssa.BasicBlock]bool) (string,
 			// some exit test compares len(phi) > 0
 			for b2 := range body {
 				if ifi, ok := b2.Instrs[len(b2.Instrs)-1].(*ssa.If); ok {
-					if cmp, ok := ifi.Cond.(*ssa.BinOp); ok && cmp.Op == token.GTR {
-						if call, ok := cmp.X.(*ssa.Call); ok {
-							if bi, ok := call.Call.Value.(*ssa.Builtin); ok && bi.Name() == "len" && call.Call.Args[0] == ssa.Value(phi) {
-								return "the loop shortens its slice by at least one element per iteration and stops when it is empty", true
-							}
+					if cmp, ok := ifi.Cond.(*ssa.BinOp); ok && (cmp.Op == token.GTR || cmp.Op == token.NEQ) && lenOf(cmp.X) {
+						if k, isK := core.ConstInt(cmp.Y); isK && k == 0 && !body[ifi.Block().Succs[1]] {
+							return "the loop shortens its slice by at least one element per iteration and stops when it is empty", true
 						}
 					}
 				}
